@@ -15,7 +15,7 @@ use memterm::screen::Screen;
 use serde::{Deserialize, Serialize};
 
 use crate::call::Call;
-use crate::snapshot::{snapshot, Snap};
+use crate::snapshot::{snapshot, snapshot_with, Snap};
 
 // ---------------------------------------------------------------------------------------------
 // panic capture
@@ -128,11 +128,13 @@ pub struct Tap {
     pub sp_min: usize,
     pub sp_max: usize,
     pub calls: u64,
+    /// previous snapshot (row sharing)
+    pub last: Option<Snap>,
 }
 
 impl Tap {
     pub fn new(scr: Screen) -> Tap {
-        Tap { scr, ev: Vec::new(), snaps: true, record: true, in_feed: false, sp_min: usize::MAX, sp_max: 0, calls: 0 }
+        Tap { scr, ev: Vec::new(), snaps: true, record: true, in_feed: false, sp_min: usize::MAX, sp_max: 0, calls: 0, last: None }
     }
     #[inline(always)]
     fn pre(&mut self, c: Call) {
@@ -154,7 +156,8 @@ impl Tap {
     #[inline(always)]
     fn post(&mut self) {
         if self.record && self.snaps {
-            let s = snapshot(&self.scr);
+            let s = snapshot_with(&self.scr, self.last.as_ref());
+            self.last = Some(s.clone());
             if let Some(e) = self.ev.last_mut() {
                 e.post = Some(s);
             }
